@@ -112,6 +112,110 @@ func init() {
 		f.strList("InsertChainReturns", allReturns)
 		f.raw("def InsertChainRollbackBeforeApplyLoop : Bool := %v\n", rollbackBeforeLoop)
 
+		// ---- InsertChain: what is read from the node BEFORE the insert lock is held. C16 judges the batch against the chain the
+		//      node has at insertion time: every read of node state (c.chain…, c.consensus…, a store obtained from them, …) must come
+		//      after c.chain.AcquireInsert, and the lock must be held to the end (deferred Unlock). Source order = position order.
+		lockPos := token.NoPos
+		ast.Inspect(ic.Body, func(n ast.Node) bool {
+			if x, ok := n.(*ast.CallExpr); ok && lockPos == token.NoPos && exprStr(fset, x.Fun) == "c.chain.AcquireInsert" {
+				lockPos = x.Pos()
+			}
+			return true
+		})
+		rootOf := func(e ast.Expr) string {
+			for {
+				switch x := e.(type) {
+				case *ast.SelectorExpr:
+					e = x.X
+				case *ast.CallExpr:
+					e = x.Fun
+				case *ast.IndexExpr:
+					e = x.X
+				case *ast.StarExpr:
+					e = x.X
+				case *ast.ParenExpr:
+					e = x.X
+				case *ast.Ident:
+					return x.Name
+				default:
+					return ""
+				}
+			}
+		}
+		nodeRoots := map[string]bool{"c": true} // the receiver, and every variable assigned from a call on it before the lock
+		readsBefore := []string{}
+		unlockDeferred := false
+		ast.Inspect(ic.Body, func(n ast.Node) bool {
+			switch x := n.(type) {
+			case *ast.AssignStmt:
+				if lockPos == token.NoPos || x.Pos() < lockPos {
+					fromNode := false
+					for _, r := range x.Rhs {
+						ast.Inspect(r, func(m ast.Node) bool {
+							if call, ok := m.(*ast.CallExpr); ok && nodeRoots[rootOf(call.Fun)] && exprStr(fset, call.Fun) != "c.chain.AcquireInsert" {
+								fromNode = true
+							}
+							return true
+						})
+					}
+					if fromNode {
+						for _, l := range x.Lhs {
+							if id, ok := l.(*ast.Ident); ok && id.Name != "_" {
+								nodeRoots[id.Name] = true
+							}
+						}
+					}
+				}
+			case *ast.CallExpr:
+				fn := exprStr(fset, x.Fun)
+				if fn != "c.chain.AcquireInsert" && nodeRoots[rootOf(x.Fun)] && (lockPos == token.NoPos || x.Pos() < lockPos) {
+					readsBefore = append(readsBefore, fn)
+				}
+			case *ast.DeferStmt:
+				if exprStr(fset, x.Call.Fun) == "insert.Unlock" && lockPos != token.NoPos && x.Pos() > lockPos {
+					unlockDeferred = true
+				}
+			}
+			return true
+		})
+		f.raw("def InsertChainLockAcquired : Bool := %v   -- c.chain.AcquireInsert is called\n", lockPos != token.NoPos)
+		f.raw("def InsertChainUnlockDeferred : Bool := %v   -- `defer insert.Unlock()` follows it\n", unlockDeferred)
+		f.strList("InsertChainNodeReadsBeforeLock", readsBefore)
+
+		// ---- AST of Downloader.process: who is dropped when the import of a downloaded batch fails ----------------
+		df, err := parser.ParseFile(fset, filepath.Join(repo, "protocol", "downloader", "downloader.go"), nil, 0)
+		if err != nil {
+			return nil, err
+		}
+		pf := findFuncE(df, "process")
+		if pf == nil {
+			return nil, fmt.Errorf("protocol/downloader/downloader.go: func process not found")
+		}
+		var dropArgs, insertStmts []string
+		ast.Inspect(pf.Body, func(n ast.Node) bool {
+			switch x := n.(type) {
+			case *ast.CallExpr:
+				if exprStr(fset, x.Fun) == "d.dropPeer" && len(x.Args) == 1 {
+					dropArgs = append(dropArgs, exprStr(fset, x.Args[0]))
+				}
+			case *ast.AssignStmt:
+				for _, r := range x.Rhs {
+					if call, ok := r.(*ast.CallExpr); ok && exprStr(fset, call.Fun) == "d.insertChain" {
+						insertStmts = append(insertStmts, exprStr(fset, x))
+					}
+				}
+			case *ast.RangeStmt:
+				// `for _, block := range blocks[:max] { raw = append(raw, block.RawBlock) }`: raw[i] is blocks[i]
+				if len(x.Body.List) == 1 {
+					insertStmts = append(insertStmts, "for "+exprStr(fset, x.Key)+", "+exprStr(fset, x.Value)+" := range "+exprStr(fset, x.X)+" { "+exprStr(fset, x.Body.List[0])+" }")
+				}
+			}
+			return true
+		})
+		f.raw("-- protocol/downloader/downloader.go process (AST of the working tree)\n")
+		f.strList("DownloaderProcessDropArgs", dropArgs)
+		f.strList("DownloaderProcessInsert", insertStmts)
+
 		// ---- AST of ProtocolManager.handleMsg ----------------------------------------------------------
 		hf, err := parser.ParseFile(fset, filepath.Join(repo, "protocol", "handler.go"), nil, 0)
 		if err != nil {
